@@ -260,6 +260,15 @@ pub fn run_ccase(c: &CCase, obs: &mut Obs) -> Result<sched::RunInfo, Failure> {
     let mut log = sh.log.into_inner().unwrap();
     let mut held = held.into_inner().unwrap();
     let concurrent_len = log.len();
+    // failures that make the final phase meaningless are reported at once
+    for e in &log {
+        match e {
+            Ev::RelEnd(v, _, false) => return Err(Failure::new("conn.release_full", format!("release of {v} failed (retrieve buffer full) with buffer {} max borrow {}: log {:?}", c.buffer, c.borrow, log))),
+            Ev::SendEnd(v, _, 3, _, err) => return Err(Failure::new("conn.send_error", format!("try_send of {v} failed with {err}: log {:?}", log))),
+            Ev::ReclaimEnd(_, Err(e)) => return Err(Failure::new("conn.reclaim", format!("reclaim failed with {e}: log {:?}", log))),
+            _ => {}
+        }
+    }
     // ---- final phase (single-threaded): drain the submission queues -----------------------
     let mut remaining: Vec<Vec<u64>> = vec![vec![]; c.channels as usize];
     for ch in 0..c.channels {
@@ -286,6 +295,7 @@ pub fn run_ccase(c: &CCase, obs: &mut Obs) -> Result<sched::RunInfo, Failure> {
                     log.push(Ev::RelBegin(val_of(p), ch));
                     let ok = receiver.release(p, id).is_ok();
                     log.push(Ev::RelEnd(val_of(p), ch, ok));
+                    ensure!(ok, "conn.release_full", "release of {} failed (retrieve buffer full) in the final drain with buffer {} max borrow {}: log {:?}", val_of(p), c.buffer, c.borrow, log);
                     // the sender keeps its side of the contract in the final phase too
                     loop {
                         log.push(Ev::ReclaimBegin(ch));
